@@ -34,14 +34,19 @@ PROP = 'C08'
 
 META = dict(
     claimed=True,
-    text='Kernel-checked theorems about the Lean model of templatecompiler.py: the cache is transparent and bounded for every '
-         'request history and limit; load(dump c) = c for every compiled program; executing the compiled program equals the '
-         'interpreted template walk (values, labels, links, bits, error) for every template of the decidable class ScopeClosed '
-         '(stage reached: see notes/C08.md) and all data, for the decoder and encoder primitives, compressed and not. Plus the '
-         'oracle compiled-vs-uncompiled / reloaded-vs-original on the implementation and model-vs-implementation correspondence '
-         'of statement lists, exec results and cache contents.',
-    technique='Lean 4 theorems (simulation between the recording walk and the interpreted walk; induction over histories) + metamorphic oracle on the implementation + checked model/implementation correspondence',
-    note='The model mirrors templatecompiler.py after the fixes F5, F6, F7, F7b, F7c; zero-length bitmaps defined by a delayed replication are an open finding.',
+    text='Kernel-checked theorems about the Lean model of templatecompiler.py: the compiled-template cache is transparent, '
+         'sound and bounded for every request history and every limit (0 included); the decoder and encoder primitives '
+         '(uncompressed and compressed) satisfy the frame law (they neither read nor write operator registers); the two local '
+         'simulation steps between exec-of-compiled and the interpreted walk hold for every register state: one element '
+         '(201/202/203/204/207/208 in force, QA links) and one bitmap-definition step (PARTIAL: the composition over whole '
+         'ScopeClosed templates and load(dump c) = c are stated, not proved). The whole-template property is covered by the '
+         'oracle compiled-vs-uncompiled and reloaded-vs-original on the implementation (generated templates of every operator, '
+         'Table D rows of versions >= 19 with forced replication factors, corpus, cache limits 0/1/2/50 with random message '
+         'orders, decode and encode) and by model-vs-implementation correspondence of statement lists (to_dict vs dump), exec '
+         'results (also after dump/load) and cache contents.',
+    technique='Lean 4 theorems (frame law of the primitives, local simulation steps, induction over request histories) + metamorphic oracle on the implementation + checked model/implementation correspondence',
+    note='The model mirrors templatecompiler.py after the fixes F5, F6, F7, F7b, F7c; a zero-length bitmap defined by a delayed replication is the open finding F7d. '
+         'ScopeClosed is decided by the model (compileList with the scope check); templates outside it are counted, not compared.',
 )
 
 K_COMPILED = 7     # cache limit used where the limit is not the subject
